@@ -24,7 +24,7 @@ func init() {
 		ID:    "C14",
 		Title: "Decoded packets own their memory and packets do not interfere",
 		Level: "model_checking",
-		Rule: "explicit enumeration of operation histories over a pool of up to three real packets and one reusable read buffer: decode frame f (one rich frame per type, 16 incl. type 0) through ReadPacket from the buffer, or through UnmarshalBinary(buf[hdr:n]) on the type's zero value or on a value made by the type's constructor, or into packet #0 or #1 of the pool when it has the frame's type (a packet reused as decode destination); forward (a new packet of the same type made by the constructor, every string and byte-slice field copied over with SetX(p.X()), joins the pool); scribble (overwrite the buffer with ff); encode packet i; String+Dump packet i; call one of four setters/adders on packet i. " +
+		Rule: "explicit enumeration of operation histories over a pool of up to three real packets and one reusable read buffer: decode frame f (one rich frame per type, 16 incl. type 0, plus alternatives: other contents, foreign properties, frames of remaining length 0, a will-less CONNECT, a PUBLISH using the rich one's topic alias with an empty topic, acknowledgements without reason codes) through ReadPacket from the buffer, or through UnmarshalBinary(buf[hdr:n]) on the type's zero value or on a value made by the type's constructor, or into packet #0 or #1 of the pool when it has the frame's type (a packet reused as decode destination); forward (a new packet of the same type made by the constructor, every string and byte-slice field copied over with SetX(p.X()), joins the pool); value copy (kept := *p of packet #0 or #1 joins the pool; such packets and their sources are afterwards only decoded into, encoded and rendered - in-place edits reach both by the nature of a shallow copy); mq.Pub from one run-time string (twice: the two packets must not share payload memory); scribble (overwrite the buffer with ff); encode packet i; String+Dump packet i; call one of four setters/adders on packet i. " +
 			"All sequences of length <=3 over the whole alphabet (both tiers); thorough adds all sequences of length 4 over the core alphabet (primary frames and the PUBLISH alternatives, no zero-value unmarshal). Invariants in the state reached by every sequence: (1) the full observation (accessors, String, re-encoding) of every packet not targeted by the last operation equals the snapshot taken when it was last targeted; (2) a freshly decoded packet equals the reference decode of the same frame in a pristine process (history independence); (3) whenever the deep digest of the package-level variables differs from its initial value, packets freshly built with the constructors must still encode and render exactly as in a pristine process; (4) alias analysis of the concrete object graphs: no mutable memory region shared between two pool packets or between a packet and the caller's buffer. " +
 			"Cache pressure: for 9 packet types, N in {40,300,1200} (thorough also 5000, 70000) frames with pairwise distinct contents in every string slot are decoded in turn, again in the same order and again in reverse; every decode must carry the values the specification decoder reads from the same bytes. " +
 			"states = sequences executed (each replayed on fresh objects), transitions = operations executed; distinct_nontrivial = distinct sequences containing at least one decode followed by another operation.",
@@ -152,6 +152,9 @@ func c14Frames() *poolFrames {
 	}
 	add([]byte{0x90, 0x03, 0x00, 0x01, 0x00})
 	add([]byte{0xb0, 0x03, 0x00, 0x01, 0x00})
+	// acknowledgements with other (and fewer) reason codes than the rich ones
+	add([]byte{0x90, 0x05, 0x02, 0x01, 0x00, 0x87, 0x80})
+	add([]byte{0xb0, 0x05, 0x02, 0x01, 0x00, 0x87, 0x80})
 	pf.probe = c14Probe()
 	for i, f := range pf.frames {
 		p, err, res := readPacket(bytes.NewReader(f), stepBudget(len(f)))
@@ -239,7 +242,7 @@ func c14Alphabet(pf *poolFrames) []poolOp {
 		}
 	}
 	for f := range pf.frames {
-		if pf.types[f] == 1 || pf.types[f] == 3 || pf.types[f] == 9 || pf.types[f] == 8 || pf.types[f] == 2 {
+		if pf.types[f] == 1 || pf.types[f] == 3 || pf.types[f] == 9 || pf.types[f] == 8 || pf.types[f] == 2 || pf.types[f] == 11 {
 			for slot := 0; slot < 2; slot++ {
 				ops = append(ops, poolOp{Name: fmt.Sprintf("unmarshalInto(#%d,frame%d:%s)", slot, f, bind.TypeNames[pf.types[f]]), Kind: 'i', Frame: f, Slot: slot})
 			}
